@@ -23,8 +23,14 @@ GEN = ["Units"]
 RULE = ("type-directed random instances of the 17 *Content dataclasses (texts drawn from words x every Python "
         "whitespace / line-boundary character, heading styles, page breaks, anchors, arbitrary slide numbers) "
         "+ extraction results of every file under tests/resources + generated PPTX/EPUB zips, PPT record streams, "
-        "mbox byte strings and RTF page sequences; distinct = distinct serialised request; non-trivial = at least "
-        "one non-empty text field")
+        "mbox byte strings and RTF page sequences; in every generated package the reading order is drawn independently of "
+        "every other order a reader could follow by mistake (PPTX: numeric sldId ids as left by moved / inserted slides, "
+        "missing / non-numeric / repeated ids, relationship ids, part names, zip order, hidden slides; EPUB: manifest order, "
+        "item ids, file names, zip order; XLSX/ODS/ODP: names, sheetIds / draw:ids, part numbers, hidden sheets / slides; mbox: "
+        "dates, senders, subjects, repeated Message-IDs); RTF bodies are generated as the scanner's event stream (characters "
+        "beyond U+FFFF as \\uN pairs, signed or unsigned, or literal; \\'hh; \\par/\\line/\\tab; groups around runs; \\page and "
+        "\\sbkpage, also inside groups; wild: unpaired surrogate halves); distinct = distinct serialised request; non-trivial = "
+        "at least one non-empty text field")
 ASSUMPTIONS = [
     "CPython str.strip/split/splitlines/lower/join are modelled (whitespace and line-boundary sets regenerated "
     "from the running interpreter each run); strings with lone surrogates are outside the model (skipped, counted)",
@@ -35,8 +41,11 @@ ASSUMPTIONS = [
     "(unit image/table lists are not compared for doc/odt heading units)",
     "PDF page order is pypdf's; XML/ZIP/OLE parsing is third-party; PPT record framing (_iter_records), text "
     "decoding/cleaning and the container pass are run for real and only their results enter the model",
-    "RTF: only the page flush of _strip_rtf_full_with_pages is modelled (pieces between \\page breaks); control-word "
-    "scanning is exercised for real on generated RTF whose pieces are plain text",
+    "RTF: _strip_rtf_full_with_pages is modelled from the scanner's event stream on (per-page buffers, _combine_surrogates, "
+    "page flush); which characters / breaks a given RTF source produces (control-word scanning, group skipping) is exercised "
+    "for real on generated RTF whose event stream is known by construction, not modelled",
+    "XLSX / ODS / ODP / mbox reading loops are not in the Lean model beyond their enumerate() / split: their source order is "
+    "judged by the token-document oracle only (openpyxl's sheet order is third-party)",
 ]
 TRUSTED = ["model of str.strip/splitlines/split in S2T/Model/Units.lean (tied by this correspondence)",
            "harness-side re-statement of DocxContent's anchor indexing (6 lines) and heading_level (regex from source)",
@@ -455,26 +464,63 @@ def _xml(s):
     return s.replace("&", "&amp;").replace("<", "&lt;").replace(">", "&gt;").replace('"', "&quot;")
 
 
-def build_pptx(files, ids, rels):
-    """files: {zip name: slide text}; ids: r:id per sldId (None = no attribute); rels: [(id, target, type)]"""
+def build_pptx(files, ids, rels, num_ids=None, hidden=()):
+    """files: {zip name: slide text} (written in dict order); ids: r:id per sldId (None = no attribute);
+    rels: [(id, target, type)]; num_ids: the numeric `id` attribute text per sldId (None = no attribute),
+    default = ascending creation ids 256, 257, ... (a deck written front to back)"""
+    if num_ids is None:
+        num_ids = [str(256 + i) for i in range(len(ids))]
     b = io.BytesIO()
     with zipfile.ZipFile(b, "w") as z:
         z.writestr("[Content_Types].xml", '<Types xmlns="http://schemas.openxmlformats.org/package/2006/content-types"/>')
         z.writestr("ppt/presentation.xml", f"<p:presentation {PNS}><p:sldIdLst>" + "".join(
-            f'<p:sldId id="{256 + i}"' + (f' r:id="{_xml(rid)}"' if rid is not None else "") + "/>" for i, rid in enumerate(ids))
+            "<p:sldId" + (f' id="{_xml(nid)}"' if nid is not None else "") + (f' r:id="{_xml(rid)}"' if rid is not None else "") + "/>"
+            for nid, rid in zip(num_ids, ids))
             + "</p:sldIdLst></p:presentation>")
         z.writestr("ppt/_rels/presentation.xml.rels", '<Relationships xmlns="http://schemas.openxmlformats.org/package/2006/relationships">'
                    + "".join(f'<Relationship Id="{_xml(i)}" Type="{_xml(t)}" Target="{_xml(tg)}"/>' for i, tg, t in rels) + "</Relationships>")
         for name, text in files.items():
-            z.writestr(name, f"<p:sld {PNS}><p:cSld><p:spTree><p:sp><p:nvSpPr><p:cNvPr id=\"2\" name=\"T\"/><p:cNvSpPr/><p:nvPr/></p:nvSpPr>"
+            z.writestr(name, f"<p:sld {PNS}" + (' show="0"' if name in hidden else "") + f"><p:cSld><p:spTree><p:sp><p:nvSpPr><p:cNvPr id=\"2\" name=\"T\"/><p:cNvSpPr/><p:nvPr/></p:nvSpPr>"
                              f"<p:txBody><a:bodyPr/><a:p><a:r><a:t>{_xml(text)}</a:t></a:r></a:p></p:txBody></p:sp></p:spTree></p:cSld></p:sld>")
     b.seek(0)
     return b
 
 
+def gen_num_ids(rng, k, wild):
+    """the numeric `id` attributes of k p:sldId entries.  PowerPoint keeps a slide's id when the slide is moved and gives an
+    inserted slide the next free id, so in an edited deck the ids are NOT ascending in show order; the order of the
+    entries alone is the show order.  wild: also missing / non-numeric / repeated / huge values."""
+    base = [256 + i for i in range(k)]
+    mode = rng.choice(["created", "moved", "moved", "inserted", "reversed", "sparse"])
+    if mode == "moved":
+        rng.shuffle(base)
+    elif mode == "inserted" and k:
+        base = [256 + i for i in range(k - 1)]
+        base.insert(rng.randint(0, k - 1), 256 + k + rng.randint(0, 40))
+    elif mode == "reversed":
+        base.reverse()
+    elif mode == "sparse":
+        base = rng.sample(range(256, 256 + 10 * k + 1), k)
+    out = [str(x) for x in base]
+    if wild:
+        for i in range(k):
+            r = rng.random()
+            if r < 0.12:
+                out[i] = None
+            elif r < 0.24:
+                out[i] = rng.choice(["", "x", "25 6", "-3", "0", "2147483648", "256.0", "٢٥٦"])
+            elif r < 0.36 and k > 1:
+                out[i] = out[rng.randrange(k)]      # repeated id
+    return out
+
+
 def gen_pptx_case(rng, wild):
+    """(files, ids, rels, num_ids)"""
     n = rng.randint(0, 6)
-    files = {f"ppt/slides/slide{i + 1}.xml": f"TOK{i + 1}" for i in range(n)}
+    names = [f"ppt/slides/slide{i + 1}.xml" for i in range(n)]
+    toks = {nm: f"TOK{i + 1}" for i, nm in enumerate(names)}
+    rng.shuffle(names)                      # order of the parts inside the zip is not the show order either
+    files = {nm: toks[nm] for nm in names}
     rels = [("rIdM", "slideMasters/slideMaster1.xml", MASTER_T), ("rIdT", "theme/theme1.xml", THEME_T)]
     for i in range(n):
         tgt = f"slides/slide{i + 1}.xml"
@@ -492,7 +538,7 @@ def gen_pptx_case(rng, wild):
     if wild:
         ids += rng.sample(["rIdM", "rIdT", "nope", None, "", "rId1"], rng.randint(0, 3))
         rng.shuffle(ids)
-    return files, ids, rels
+    return files, ids, rels, gen_num_ids(rng, len(ids), wild)
 
 
 def build_epub(items, spine, files):
@@ -520,22 +566,32 @@ EPUB_TAILS = ["<object data='x'>", "<iframe src='x'>", "<noscript>", "<table><tr
 
 
 def gen_epub_case(rng, wild):
-    """(items, spine, files, kept, tokens): kept[i] = spine item i yields a chapter (by construction)."""
+    """(items, spine, files, kept, tokens): kept[i] = spine item i yields a chapter (by construction).
+    The reading order is the SPINE order only: manifest order, item ids, file names and the order of the parts inside
+    the zip are drawn independently of it."""
     n = rng.randint(0, 7)
     items, spine, files, kept, toks = [], [], {}, [], []
+    fno = list(range(n))
+    ino = list(range(n))
+    rng.shuffle(fno)
+    rng.shuffle(ino)
     for i in range(n):
         kind = rng.choice(["ok", "ok", "ok", "nomanifest", "image", "missingfile"]) if (wild or rng.random() < 0.4) else "ok"
-        iid = f"it{i}"
+        iid = f"it{ino[i]}"
         if kind == "ok":
-            items.append((iid, f"c{i}.xhtml", "application/xhtml+xml"))
-            files[f"c{i}.xhtml"] = f"TOK{i + 1}" + ("~" if (wild and rng.random() < 0.3) else "")
+            items.append((iid, f"c{fno[i]}.xhtml", "application/xhtml+xml"))
+            files[f"c{fno[i]}.xhtml"] = f"TOK{i + 1}" + ("~" if (wild and rng.random() < 0.3) else "")
         elif kind == "image":
-            items.append((iid, f"c{i}.png", "image/png"))
+            items.append((iid, f"c{fno[i]}.png", "image/png"))
         elif kind == "missingfile":
-            items.append((iid, f"c{i}.xhtml", "application/xhtml+xml"))
+            items.append((iid, f"c{fno[i]}.xhtml", "application/xhtml+xml"))
         spine.append(iid)
         kept.append(kind == "ok")
         toks.append(f"TOK{i + 1}" if kind == "ok" else None)
+    rng.shuffle(items)
+    names = list(files)
+    rng.shuffle(names)
+    files = {nm: files[nm] for nm in names}
     return items, spine, files, kept, toks
 
 
@@ -573,14 +629,144 @@ def gen_rtf_pieces(rng, wild):
     return ps
 
 
+def rtf_units16(c):
+    """the \\uN code units of one character"""
+    if c < 0x10000:
+        return [c]
+    c -= 0x10000
+    return [0xD800 + (c >> 10), 0xDC00 + (c & 0x3FF)]
+
+
 def build_rtf(pieces, pict_after=()):
-    """RTF whose body is pieces joined by \\page; `pict_after` = indices of pieces that also carry a picture."""
+    """RTF whose body is pieces joined by \\page; `pict_after` = indices of pieces that also carry a picture.
+    A character beyond U+FFFF is written the way RTF writers do: two \\uN escapes (a UTF-16 surrogate pair)."""
     def esc(t):
-        return "".join(c if ord(c) < 128 and c not in "\\{}" else ("\\" + c if c in "\\{}" else "\\u%d?" % ord(c)) for c in t)
+        return "".join(c if ord(c) < 128 and c not in "\\{}" else ("\\" + c if c in "\\{}" else "".join("\\u%d?" % u for u in rtf_units16(ord(c))))
+                       for c in t)
     body = []
     for i, p in enumerate(pieces):
         body.append(esc(p) + ("{\\pict\\pngblip\\picw1\\pich1 89504e470d0a1a0a}" if i in pict_after else ""))
     return ("{\\rtf1\\ansi " + "\\page ".join(body) + "}").encode("ascii")
+
+
+# --- RTF as the scanner sees it: a stream of character events (UTF-16 code units or literal code points) and breaks
+ASTRAL = [0x1F600, 0x1F4C4, 0x1D49C, 0x20000, 0x10000, 0x10FFFF, 0x1F1E9]
+RTF_PLAIN = "abcxyzTOK0123456789 .,;:-!?"
+
+
+def gen_rtf_pages(rng, wild):
+    """pages of a document as lists of code points (wild: lone surrogates too)."""
+    n = rng.choice([1, 2, 2, 3, 4, 6])
+    pages = []
+    for _ in range(n):
+        k = rng.random()
+        if k < 0.15:
+            pages.append([ord(c) for c in rng.choice(["", " ", "\n", " \n\t "])])
+            continue
+        cps = []
+        for _ in range(rng.randint(1, 7)):
+            r = rng.random()
+            if r < 0.3:
+                cps.append(rng.choice(ASTRAL))
+            elif r < 0.4:
+                cps.append(rng.choice([0xE9, 0x20AC, 0xA0, 0xAD, 0x2028, 0x85, 0xFFFD, 0xFFFF, 0x8000, 0x7FFF, 0x5C, 0x7B, 0x7D]))
+            elif r < 0.55:
+                cps.append(rng.choice([0x20, 0x20, 0x09, 0x0A, 0x0A]))
+            elif wild and r < 0.65:
+                cps.append(rng.choice([0xD83D, 0xDE00, 0xD800, 0xDFFF, 0xDBFF, 0xDC00]))      # unpaired / oddly paired halves
+            else:
+                cps += [ord(c) for c in rng.choice(["word", "x", "Tok", "7", "a b"])]
+        pages.append(cps)
+    return pages
+
+
+def rtf_encode_pages(rng, pages, wild):
+    """(rtf source text, events): events = what the scanner appends, in order: ints (code unit / code point) and -1 for
+    an explicit page break.  Every choice of spelling (literal, \\uN signed or unsigned, \\'hh, \\par, groups around runs,
+    \\page or \\sbkpage, breaks inside a group) leaves the events the same."""
+    out, evs, depth = [], [], 0
+    for pi, cps in enumerate(pages):
+        if pi:
+            w = rng.choice(["\\page ", "\\page ", "\\sbkpage ", "\\page\\pard ", "\\par\\page "])
+            if w.startswith("\\par"):
+                evs.append(10)
+            if rng.random() < 0.25:
+                w = "{" + w + "}"
+            out.append(w)
+            evs.append(-1)
+        for c in cps:
+            if rng.random() < 0.12:
+                out.append(rng.choice(["{\\b ", "{", "{\\fs24\\cf1 "]))
+                depth += 1
+            elif depth and rng.random() < 0.2:
+                out.append("}")
+                depth -= 1
+            elif rng.random() < 0.05:
+                out.append(rng.choice(["\\b0 ", "\\plain ", "\r", "\\f1\\fs20 "]))
+            if c >= 0x10000:
+                if rng.random() < 0.75:
+                    for u in rtf_units16(c):
+                        out.append("\\u%d?" % (u - 65536 if rng.random() < 0.6 else u))
+                        evs.append(u)
+                else:
+                    out.append(chr(c))          # literal (the file is UTF-8)
+                    evs.append(c)
+                continue
+            evs.append(c)
+            ch = chr(c)
+            if 0xD800 <= c <= 0xDFFF:
+                out.append("\\u%d?" % (c - 65536 if rng.random() < 0.6 else c))
+            elif ch in "\\{}":
+                out.append("\\" + ch)
+            elif c == 10:
+                out.append(rng.choice(["\\par ", "\\line ", "\n", "\\row "]))
+            elif c == 9:
+                out.append(rng.choice(["\\tab ", "\t"]))
+            elif c == 0xA0 and rng.random() < 0.5:
+                out.append("\\~")
+            elif c == 0xAD and rng.random() < 0.5:
+                out.append("\\_")
+            elif ch in RTF_PLAIN or ch.isalnum() and c < 128:
+                out.append(ch if rng.random() < 0.9 else "\\'%02x" % c)
+            elif c < 256 and rng.random() < 0.5:
+                out.append("\\'%02x" % c)
+            else:
+                out.append("\\u%d?" % (c - 65536 if (c >= 0x8000 and rng.random() < 0.6) else c))
+    out.append("}" * depth)
+    return "{\\rtf1\\ansi\\deff0 " + "".join(out) + "}", evs
+
+
+def rtf_doc_expected(pages):
+    """page texts by construction (None when a page holds surrogate halves: then there is no 'the text' to compare)."""
+    if any(0xD800 <= c <= 0xDFFF for p in pages for c in p):
+        return None
+    return ["".join(map(chr, p)) for p in pages]
+
+
+def _squeeze(t):
+    return "".join(t.split())
+
+
+def rtf_doc_check(rtf, expected):
+    """the property on one RTF source: one unit per explicit page, numbered 1..n, unit k holding page k's text and no
+    other page's (compared with all whitespace removed, so trimming / blank-run collapsing is not judged). -> [(key, what)]"""
+    from sharepoint2text.parsing.extractors.ms_legacy.rtf_extractor import read_rtf
+    try:
+        res = next(read_rtf(io.BytesIO(rtf.encode("utf-8"))))
+        us = [(u.get_metadata().unit_number, u.get_text()) for u in res.iterate_units()]
+    except Exception as e:  # noqa: BLE001
+        return [("rtf.raises", f"read_rtf raised {type(e).__name__}: {e}")]
+    if len(expected) < 2:
+        if expected and _squeeze(expected[0]) and [(n, _squeeze(t)) for n, t in us] != [(1, _squeeze(expected[0]))]:
+            return [("rtf.text-in-wrong-unit", f"rtf without page break, text {expected[0]!r:.60}, gave units {us!r:.160}")]
+        return []
+    if [n for n, _ in us] != list(range(1, len(expected) + 1)):
+        return [("rtf.page-without-unit", f"rtf with {len(expected)} explicit pages {expected!r:.120} gave units numbered {[n for n, _ in us]}")]
+    for k, (want, (_, got)) in enumerate(zip(expected, us), start=1):
+        if _squeeze(want) != _squeeze(got):
+            return [("rtf.text-in-wrong-unit", f"rtf page {k} holds {want!r:.60} but unit {k} returns {got!r:.60} "
+                                               f"(pages {expected!r:.160}; units {[t for _, t in us]!r:.160})")]
+    return []
 
 
 RT_SLIDE_PERSIST, RT_TEXT_HEADER, RT_TEXT_CHARS, RT_TEXT_BYTES = 1011, 3999, 4000, 4008
@@ -712,24 +898,27 @@ def _corr_pptx(ctx, broken):
     reqs, exp = [], []
     for wild in (False, True):
         for _ in range(ctx.n(60, 800)):
-            files, ids, rels = gen_pptx_case(ctx.rng, wild)
-            case = {"files": files, "ids": ids, "rels": [list(r) for r in rels]}
+            files, ids, rels, nums = gen_pptx_case(ctx.rng, wild)
+            case = {"files": files, "ids": ids, "rels": [list(r) for r in rels], "num_ids": nums}
             try:
-                c = PX._PptxContext(build_pptx(files, ids, rels))
+                c = PX._PptxContext(build_pptx(files, ids, rels, nums))
                 try:
                     order = list(c.slide_order)
                 finally:
                     c.close()
-                res = next(PX.read_pptx(build_pptx(files, ids, rels)))
+                res = next(PX.read_pptx(build_pptx(files, ids, rels, nums)))
                 got = {"order": order, "numbers": [s.slide_number for s in res.slides],
                        "unit_numbers": [u.get_metadata().unit_number for u in res.iterate_units()]}
             except Exception as e:  # noqa: BLE001
                 got = {"raised": type(e).__name__}
-            reqs.append({"op": "c03.pptx_order", "rels": [{"id": i, "target": tg, "type": t.lower()} for i, tg, t in rels], "ids": ids})
+            reqs.append({"op": "c03.pptx_order", "rels": [{"id": i, "target": tg, "type": t.lower()} for i, tg, t in rels], "ids": ids,
+                         "num_ids": nums})
             exp.append((case, got))
     for (case, got), w in zip(exp, ctx.drive(reqs)):
         ctx.case(("pptx", repr(case)))
         ctx.count("pptx-order/" + ("raised" if "raised" in got else f"slides={min(len(got['order']), 4)}"))
+        nn = [int(x) for x in case["num_ids"] if x is not None and x.isascii() and x.isdigit()]
+        ctx.count("pptx-order/numeric-ids-" + ("ascending" if nn == sorted(nn) and len(set(nn)) == len(nn) else "not-ascending"))
         if "raised" in got or "drv_error" in w or got["order"] != [s1(x) for x in w["order"]] or got["numbers"] != w["numbers"] or got["unit_numbers"] != w["numbers"]:
             bad += 1
             _note(broken, "c03.pptx_order", f"impl={got} model={w}", {"pptx": case}, bad)
@@ -886,6 +1075,46 @@ def _corr_rtf(ctx, broken):
         if "pages" not in w or got != [s1(x) for x in w["pages"]]:
             bad += 1
             _note(broken, "c03.rtf_pages", f"impl={got!r:.300} model={w!r:.300}", {"rtf_pieces": pieces}, bad)
+    # (b) the scanner's event stream: characters beyond the BMP as \\uN pairs or literals, every spelling of a character,
+    #     groups around runs, both break words, breaks inside groups  ->  self.pages
+    from sharepoint2text.parsing.extractors.ms_legacy import rtf_extractor as RX
+    reqs, exp = [], []
+    for wild in (False, True):
+        for _ in range(ctx.n(120, 2500)):
+            pages = gen_rtf_pages(ctx.rng, wild)
+            rtf, evs = rtf_encode_pages(ctx.rng, pages, wild)
+            try:
+                res = next(read_rtf(io.BytesIO(rtf.encode("utf-8"))))
+                got = [[ord(c) for c in p] for p in res.pages]
+            except Exception as e:  # noqa: BLE001
+                got = "raised " + type(e).__name__
+            reqs.append({"op": "c03.rtf_extract", "evs": evs})
+            exp.append(({"rtf": rtf, "pages": rtf_doc_expected(pages)}, got, pages))
+    for (case, got, pages), w in zip(exp, ctx.drive(reqs)):
+        ctx.case(("rtf_doc", case["rtf"]))
+        astral_before_break = any(c >= 0x10000 for p in pages[:-1] for c in p)
+        ctx.count("rtf-scan/" + (f"pages={min(len(got), 4)}" if isinstance(got, list) else "raised")
+                  + ("/astral-before-break" if astral_before_break else ""))
+        if "pages" not in w or got != w["pages"]:
+            bad += 1
+            _note(broken, "c03.rtf_extract", f"impl={got!r:.300} model={w!r:.300} rtf={case['rtf']!r:.300}", {"rtf_doc": case}, bad)
+    # (c) _combine_surrogates itself on arbitrary code-unit strings
+    reqs, exp = [], []
+    for _ in range(ctx.n(150, 3000)):
+        codes = [ctx.rng.choice([0x61, 0xD83D, 0xDE00, 0xD800, 0xDBFF, 0xDC00, 0xDFFF, 0xFFFD, 0xE000, 0xD7FF, 0x1F600, 0x10FFFF])
+                 for _ in range(ctx.rng.randint(0, 7))]
+        try:
+            got = [ord(c) for c in RX._combine_surrogates("".join(map(chr, codes)))]
+        except Exception as e:  # noqa: BLE001
+            got = "raised " + type(e).__name__
+        reqs.append({"op": "c03.combine", "codes": codes})
+        exp.append((codes, got))
+    for (codes, got), w in zip(exp, ctx.drive(reqs)):
+        ctx.case(("rtf_combine", tuple(codes)))
+        ctx.count("rtf-combine/" + ("pairs" if any(0xD800 <= a <= 0xDBFF and 0xDC00 <= b <= 0xDFFF for a, b in zip(codes, codes[1:])) else "no-pair"))
+        if got != w.get("out"):
+            bad += 1
+            _note(broken, "c03.combine", f"_combine_surrogates({codes}) impl={got} model={w}", {"rtf_codes": codes}, bad)
     return bad
 
 
@@ -1034,9 +1263,10 @@ def token_doc(rng):
     return {"fmt": "doc", "main_text": "\n".join(lines), "title": "", "tables": []}
 
 
-def pptx_case_check(files, ids, rels):
+def pptx_case_check(files, ids, rels, num_ids=None, hidden=()):
     """one PPTX package on the real extractor: one unit per p:sldId that has a slide relationship, numbered by
-    position, carrying that slide part's text (blank when the part is missing). -> [(key, what)]"""
+    position IN THE sldIdLst (whatever the numeric id attributes say), carrying that slide part's text (blank when
+    the part is missing). -> [(key, what)]"""
     from sharepoint2text.parsing.extractors.ms_modern.pptx_extractor import read_pptx
     relmap = {}
     for i, tg, t in rels:
@@ -1048,7 +1278,7 @@ def pptx_case_check(files, ids, rels):
             tg = relmap[rid]
             want.append(files.get("ppt/" + tg, "") if re.fullmatch(r"slides/slide\d+\.xml", tg) else None)
     try:
-        res = next(read_pptx(build_pptx(files, ids, rels)))
+        res = next(read_pptx(build_pptx(files, ids, rels, num_ids, hidden)))
         us = [(u.get_metadata().unit_number, u.get_text()) for u in res.iterate_units()]
         full = res.get_full_text()
     except Exception as e:  # noqa: BLE001
@@ -1056,9 +1286,136 @@ def pptx_case_check(files, ids, rels):
     if [n for n, _ in us] != list(range(1, len(want) + 1)):
         return [("pptx.units-do-not-mirror-slides", f"pptx with {len(want)} slides in sldIdLst (texts {want}) gave units {us}")]
     if any(w is not None and w != t for w, (_, t) in zip(want, us)):
-        return [("pptx.units-do-not-mirror-slides", f"pptx with slides {want} in presentation order gave units {us}")]
+        return [("pptx.units-do-not-mirror-slides", f"pptx with slides {want} in presentation order (sldId ids {num_ids if num_ids is not None else 'ascending'}) gave units {us}")]
     if full != "\n".join(t for _, t in us).strip():
         return [("pptx.full-text-not-join-of-units", f"pptx full text {full!r:.80}")]
+    return []
+
+
+# --- sheet / page sequences through the real extractors (XLSX, ODS, ODP): the order is the order of the <sheet> /
+#     <table:table> / <draw:page> elements, not the order of names, ids, part names or relationship ids
+RNS = "http://schemas.openxmlformats.org/officeDocument/2006/relationships"
+ODF_NS = ('xmlns:office="urn:oasis:names:tc:opendocument:xmlns:office:1.0" xmlns:text="urn:oasis:names:tc:opendocument:xmlns:text:1.0" '
+          'xmlns:table="urn:oasis:names:tc:opendocument:xmlns:table:1.0" xmlns:draw="urn:oasis:names:tc:opendocument:xmlns:drawing:1.0" '
+          'xmlns:presentation="urn:oasis:names:tc:opendocument:xmlns:presentation:1.0" xmlns:svg="urn:oasis:names:tc:opendocument:xmlns:svg-compatible:1.0" '
+          'xmlns:style="urn:oasis:names:tc:opendocument:xmlns:style:1.0"')
+
+
+def build_xlsx(items):
+    """items in workbook order: [{"name", "id" (sheetId), "part" (number in the part name / relationship id), "text"}]"""
+    by_part = sorted(items, key=lambda it: it["part"])
+    b = io.BytesIO()
+    with zipfile.ZipFile(b, "w") as z:
+        z.writestr("[Content_Types].xml", '<Types xmlns="http://schemas.openxmlformats.org/package/2006/content-types">'
+                   '<Default Extension="rels" ContentType="application/vnd.openxmlformats-package.relationships+xml"/>'
+                   '<Default Extension="xml" ContentType="application/xml"/>'
+                   '<Override PartName="/xl/workbook.xml" ContentType="application/vnd.openxmlformats-officedocument.spreadsheetml.sheet.main+xml"/>'
+                   + "".join(f'<Override PartName="/xl/worksheets/sheet{it["part"]}.xml" ContentType="application/vnd.openxmlformats-officedocument.spreadsheetml.worksheet+xml"/>' for it in items)
+                   + "</Types>")
+        z.writestr("_rels/.rels", f'<Relationships xmlns="http://schemas.openxmlformats.org/package/2006/relationships"><Relationship Id="rId1" Type="{RNS}/officeDocument" Target="xl/workbook.xml"/></Relationships>')
+        z.writestr("xl/workbook.xml", f'<workbook xmlns="http://schemas.openxmlformats.org/spreadsheetml/2006/main" xmlns:r="{RNS}"><sheets>'
+                   + "".join(f'<sheet name="{_xml(it["name"])}" sheetId="{it["id"]}"' + (f' state="{it["hidden"]}"' if it.get("hidden") else "")
+                             + f' r:id="rId{it["part"]}"/>' for it in items) + "</sheets></workbook>")
+        z.writestr("xl/_rels/workbook.xml.rels", '<Relationships xmlns="http://schemas.openxmlformats.org/package/2006/relationships">'
+                   + "".join(f'<Relationship Id="rId{it["part"]}" Type="{RNS}/worksheet" Target="worksheets/sheet{it["part"]}.xml"/>' for it in by_part) + "</Relationships>")
+        for it in by_part:
+            cell = f'<row r="1"><c r="A1" t="inlineStr"><is><t xml:space="preserve">{_xml(it["text"])}</t></is></c></row>' if it["text"] else ""
+            z.writestr(f'xl/worksheets/sheet{it["part"]}.xml', f'<worksheet xmlns="http://schemas.openxmlformats.org/spreadsheetml/2006/main"><sheetData>{cell}</sheetData></worksheet>')
+    b.seek(0)
+    return b
+
+
+def build_odf(kind, items):
+    mt = {"odp": "application/vnd.oasis.opendocument.presentation", "ods": "application/vnd.oasis.opendocument.spreadsheet"}[kind]
+    tag = {"odp": "presentation", "ods": "spreadsheet"}[kind]
+    if kind == "odp":
+        styles = ('<office:automatic-styles><style:style style:name="dpH" style:family="drawing-page"><style:drawing-page-properties '
+                  'presentation:visibility="hidden"/></style:style></office:automatic-styles>')
+        body = "".join(f'<draw:page draw:name="{_xml(it["name"])}" draw:id="id{it["id"]}" draw:master-page-name="Default"'
+                       + (' draw:style-name="dpH"' if it.get("hidden") else "") + ">"
+                       + (f'<draw:frame svg:x="1cm" svg:y="1cm" svg:width="5cm" svg:height="2cm"><draw:text-box><text:p>{_xml(it["text"])}</text:p></draw:text-box></draw:frame>' if it["text"] else "")
+                       + "</draw:page>" for it in items)
+    else:
+        styles = ('<office:automatic-styles><style:style style:name="taH" style:family="table"><style:table-properties '
+                  'table:display="false"/></style:style></office:automatic-styles>')
+        body = "".join(f'<table:table table:name="{_xml(it["name"])}"' + (' table:style-name="taH"' if it.get("hidden") else "")
+                       + '><table:table-row><table:table-cell office:value-type="string">'
+                       f'<text:p>{_xml(it["text"])}</text:p></table:table-cell></table:table-row></table:table>' for it in items)
+    b = io.BytesIO()
+    with zipfile.ZipFile(b, "w") as z:
+        z.writestr(zipfile.ZipInfo("mimetype"), mt)
+        z.writestr("content.xml", f'<?xml version="1.0" encoding="UTF-8"?><office:document-content {ODF_NS} office:version="1.2">{styles}<office:body>'
+                                  f'<office:{tag}>{body}</office:{tag}></office:body></office:document-content>')
+        z.writestr("META-INF/manifest.xml", '<?xml version="1.0" encoding="UTF-8"?><manifest:manifest xmlns:manifest="urn:oasis:names:tc:opendocument:xmlns:manifest:1.0" manifest:version="1.2">'
+                   f'<manifest:file-entry manifest:full-path="/" manifest:media-type="{mt}"/><manifest:file-entry manifest:full-path="content.xml" manifest:media-type="text/xml"/></manifest:manifest>')
+    b.seek(0)
+    return b
+
+
+def gen_seq_doc(rng):
+    """{"kind": xlsx|ods|odp, "items": [...]} — k sheets / pages in document order; names, ids and part numbers are drawn
+    independently of that order (a workbook whose sheets were re-ordered / renamed / inserted after creation); some
+    sheets / pages are empty."""
+    kind = rng.choice(["xlsx", "ods", "odp"])
+    k = rng.randint(1, 6)
+    names = rng.sample(["Zeta", "Alpha", "Mid", "Sheet10", "Sheet2", "Sheet1", "page3", "page1", "B", "a", "Übersicht", "10", "9"], k)
+    ids = rng.sample(range(1, 4 * k + 1), k)
+    parts = list(range(1, k + 1))
+    rng.shuffle(parts)
+    items = [{"name": names[i], "id": ids[i], "part": parts[i], "text": rng.choice([f"TOK{i + 1}", f"TOK{i + 1}", f"TOK{i + 1}", ""]),
+              # a hidden sheet / slide is still a sheet / slide of the document
+              "hidden": rng.choice([None, None, None, "hidden", "veryHidden" if kind == "xlsx" else "hidden"])} for i in range(k)]
+    return {"kind": kind, "items": items}
+
+
+def seq_doc_check(d):
+    """one unit per sheet / page, numbered by document position, unit k holding item k's token and nobody else's,
+    full text = trimmed newline-join of the unit texts (xlsx, ods, odp are all in the statement's list). -> [(key, what)]"""
+    kind, items = d["kind"], d["items"]
+    try:
+        if kind == "xlsx":
+            from sharepoint2text.parsing.extractors.ms_modern.xlsx_extractor import read_xlsx
+            res = next(read_xlsx(build_xlsx(items)))
+        elif kind == "ods":
+            from sharepoint2text.parsing.extractors.open_office.ods_extractor import read_ods
+            res = next(read_ods(build_odf("ods", items)))
+        else:
+            from sharepoint2text.parsing.extractors.open_office.odp_extractor import read_odp
+            res = next(read_odp(build_odf("odp", items)))
+        us = [(u.get_metadata().unit_number, u.get_text()) for u in res.iterate_units()]
+        full = res.get_full_text()
+    except Exception as e:  # noqa: BLE001
+        return [(f"{kind}.raises", f"read_{kind} raised {type(e).__name__}: {e}")]
+    what = "sheets" if kind != "odp" else "pages"
+    if [n for n, _ in us] != list(range(1, len(items) + 1)):
+        return [(f"{kind}.units-do-not-mirror-{what}", f"{kind} with {len(items)} {what} {[(it['name'], it['text']) for it in items]} gave units {us}")]
+    for it, (n, t) in zip(items, us):
+        toks = re.findall(r"TOK\d+", t)
+        if toks != ([it["text"]] if it["text"] else []) or (kind != "odp" and it["name"] not in t):
+            return [(f"{kind}.units-do-not-mirror-{what}", f"{kind} {what} in document order {[(it['name'], it['text']) for it in items]} "
+                                                          f"(ids {[it['id'] for it in items]}, part numbers {[it['part'] for it in items]}, hidden {[bool(it.get('hidden')) for it in items]}) gave units {us}")]
+    if full != "\n".join(t for _, t in us).strip():
+        return [(f"{kind}.full-text-not-join-of-units", f"{kind}: get_full_text()={full!r:.80} is not the trimmed newline-join of the unit texts {us!r:.120}")]
+    return []
+
+
+def epub_case_check(d):
+    """one EPUB package on the real extractor: one unit per spine item that names an existing content document, numbered
+    by SPINE position, holding that document's token. -> [(key, what)]"""
+    from sharepoint2text.parsing.extractors.epub_extractor import read_epub
+    try:
+        res = next(read_epub(build_epub([tuple(i) for i in d["items"]], d["spine"], d["files"])))
+        us = [(u.get_metadata().unit_number, u.get_text().strip()) for u in res.iterate_units()]
+        full = res.get_full_text()
+        joined = "\n".join(u.get_text() for u in res.iterate_units()).strip()
+    except Exception as e:  # noqa: BLE001
+        return [("epub.raises", f"read_epub raised {type(e).__name__}")]
+    href = {i[0]: i[1] for i in d["items"]}
+    want = [(k + 1, d["files"][href[s]].rstrip("~")) for k, s in enumerate(d["spine"]) if href.get(s) in d["files"]]
+    if us != want:
+        return [("epub.units-do-not-mirror-spine", f"epub spine {d['spine']} (manifest {d['items']}) gave units {us}, expected {want}")]
+    if full != joined:
+        return [("epub.full-text-not-join-of-units", "epub full text differs from the join of its units")]
     return []
 
 
@@ -1080,8 +1437,10 @@ def e2e_checks(rng, n):
         rels = [(f"rId{i}", f"slides/slide{i}.xml", SLIDE_T) for i in range(1, m + 1)] + [("rIdM", "slideMasters/slideMaster1.xml", MASTER_T)]
         rng.shuffle(rels)
         ids = [f"rId{i}" for i in order]
-        rep = {"pptx": {"files": files, "ids": ids, "rels": [list(r) for r in rels]}}
-        for key, what in pptx_case_check(files, ids, rels):
+        nums = gen_num_ids(rng, m, False)        # creation ids of a deck that was edited: not ascending in show order
+        hid = sorted(nm for nm in files if rng.random() < 0.2)      # hidden slides (show="0") are slides of the deck
+        rep = {"pptx": {"files": files, "ids": ids, "rels": [list(r) for r in rels], "num_ids": nums, "hidden": hid}}
+        for key, what in pptx_case_check(files, ids, rels, nums, hid):
             out.append((key, what, rep))
         # EPUB
         items, spine, files, kept, toks = gen_epub_case(rng, True)
@@ -1098,7 +1457,7 @@ def e2e_checks(rng, n):
             out.append(("epub.raises", f"read_epub raised {type(e).__name__}", rep))
         # RTF: page k carries TOKk (or nothing), some pages carry a picture
         m = rng.randint(2, 6)
-        pieces = [rng.choice([f"TOK{i + 1}", f"TOK{i + 1}", "", " "]) for i in range(m)]
+        pieces = [rng.choice([f"TOK{i + 1}", f"TOK{i + 1}", f"T\U0001f600K{i + 1}", f"\U0001d49c\U0001f4c4 TOK{i + 1}", "", " "]) for i in range(m)]
         picts = sorted(rng.sample(range(m), rng.choice([0, 1, 2])))
         rep = {"rtf": {"pieces": pieces, "pict_after": picts}}
         try:
@@ -1106,12 +1465,29 @@ def e2e_checks(rng, n):
             us = [(u.get_metadata().unit_number, u.get_text().strip(), len(u.get_images())) for u in res.iterate_units()]
             want = [(i + 1, p.strip(), 1 if i in picts else 0) for i, p in enumerate(pieces)]
             if us != want:
-                out.append(("rtf.page-without-unit", f"rtf pages {pieces} (pictures on pages {[i + 1 for i in picts]}) gave units {us}, expected {want}", rep))
+                moved = [(n, i) for n, _, i in us] == [(n, i) for n, _, i in want]     # numbers and pictures right, text in the wrong unit
+                out.append(("rtf.text-in-wrong-unit" if moved else "rtf.page-without-unit",
+                            f"rtf pages {pieces} (pictures on pages {[i + 1 for i in picts]}) gave units {us}, expected {want}", rep))
         except Exception as e:  # noqa: BLE001
             out.append(("rtf.raises", f"read_rtf raised {type(e).__name__}", rep))
+        # RTF as an event stream: any spelling of any character (pairs of \\uN for characters beyond U+FFFF), groups, both break words
+        pages = gen_rtf_pages(rng, False)
+        rtf, _ = rtf_encode_pages(rng, pages, False)
+        expd = rtf_doc_expected(pages)
+        if expd is not None:
+            for key, what in rtf_doc_check(rtf, expd):
+                out.append((key, what, {"rtf_doc": {"rtf": rtf, "pages": expd}}))
+        # XLSX / ODS / ODP: sheet / page k carries TOKk; names, ids, part numbers are not in document order
+        d = gen_seq_doc(rng)
+        for key, what in seq_doc_check(d):
+            out.append((key, what, {"seq_doc": d}))
         # mbox: message k carries TOKk
         m = rng.randint(1, 5)
-        data = "".join(f"From s{i}@x.org Mon Jan  1 00:00:0{i} 2024\nFrom: s{i}@x.org\nDate: Mon, 1 Jan 2024 00:00:00 +0000\nSubject: s{i}\n\nTOK{i}\n\n" for i in range(1, m + 1)).encode()
+        days = [rng.randint(1, 28) for _ in range(m + 1)]       # mailbox order is file order, not date / subject / sender order
+        subj = [rng.choice(["zz", "aa", "Re: s", "s"]) for _ in range(m + 1)]
+        data = "".join(f"From s{9 - i}@x.org Mon Jan {days[i]:2d} 00:00:0{i} 2024\nFrom: s{9 - i}@x.org\nDate: Mon, {days[i]} Jan 2024 00:00:00 +0000\n"
+                       f"Message-ID: <m{rng.randint(0, 2)}@x.org>\nSubject: {subj[i]}{rng.choice([i, 0])}\n\nTOK{i}\n\n" for i in range(1, m + 1)).encode()
+        # (Message-IDs and subjects repeat: a message stored twice, e.g. after a re-import, is still two messages of the mailbox)
         rep = {"mbox": data.decode("latin-1")}
         try:
             res = list(read_mbox_format_mail(io.BytesIO(data)))
@@ -1172,8 +1548,15 @@ def _oracle(ctx, seeds, budget):
                 pass
         if "pptx" in c:
             d = c["pptx"]
-            for key, what in pptx_case_check(d["files"], d["ids"], [tuple(r) for r in d["rels"]]):
+            for key, what in pptx_case_check(d["files"], d["ids"], [tuple(r) for r in d["rels"]], d.get("num_ids"), d.get("hidden", ())):
                 _viol(out, key, what, {"pptx": d})
+        if "rtf_doc" in c and c["rtf_doc"].get("pages") is not None:
+            d = c["rtf_doc"]
+            for key, what in rtf_doc_check(d["rtf"], d["pages"]):
+                _viol(out, key, what, {"rtf_doc": d})
+        if "epub" in c:
+            for key, what in epub_case_check(c["epub"]):
+                _viol(out, key, what, {"epub": c["epub"]})
         if "ppt_doc" in c:
             d = c["ppt_doc"]
             for key, what in ppt_doc_check(d["list"], d["cont"], d["raw"]):
@@ -1311,16 +1694,16 @@ def replay(ctx, payload):
             msgs = [f"rtf pages {pieces} gave units {us}, expected {want}"]
     elif "pptx" in rep:
         d = rep["pptx"]
-        msgs = [w for _, w in pptx_case_check(d["files"], d["ids"], [tuple(r) for r in d["rels"]])]
+        msgs = [w for _, w in pptx_case_check(d["files"], d["ids"], [tuple(r) for r in d["rels"]], d.get("num_ids"), d.get("hidden", ()))]
+    elif "rtf_doc" in rep:
+        d = rep["rtf_doc"]
+        if d.get("pages") is None:
+            return False, "replay names a broken correspondence case without a well-formed text (unpaired surrogate halves)"
+        msgs = [w for _, w in rtf_doc_check(d["rtf"], d["pages"])]
     elif "epub" in rep:
-        from sharepoint2text.parsing.extractors.epub_extractor import read_epub
-        d = rep["epub"]
-        res = next(read_epub(build_epub([tuple(i) for i in d["items"]], d["spine"], d["files"])))
-        us = [(u.get_metadata().unit_number, u.get_text().strip()) for u in res.iterate_units()]
-        href = {i[0]: i[1] for i in d["items"]}
-        want = [(k + 1, d["files"][href[s]]) for k, s in enumerate(d["spine"]) if href.get(s) in d["files"]]
-        if us != want:
-            msgs = [f"epub units {us}, expected {want}"]
+        msgs = [w for _, w in epub_case_check(rep["epub"])]
+    elif "seq_doc" in rep:
+        msgs = [w for _, w in seq_doc_check(rep["seq_doc"])]
     elif "mbox" in rep:
         from sharepoint2text.parsing.extractors.mail.mbox_email_extractor import read_mbox_format_mail
         data = rep["mbox"].encode("latin-1")
